@@ -44,7 +44,7 @@ pub fn run(ctx: &mut Ctx) {
     for (n, ok) in r9::selftest(ctx.shard == 0) {
         ctx.selftest(&n, ok);
     }
-    ctx.require(&["annex_g", "exact_vs_reference", "input_Z_ne_1", "input_affine", "a=N-1", "b=N-1", "a=1", "bilinearity", "nondegenerate", "order_N", "g2_Z_in_Fp2", "infinity_input", "consecutive_negated_P", "consecutive_negated_Q", "crafted_stored_Z_limbs"]);
+    ctx.require(&["annex_g", "exact_vs_reference", "input_Z_ne_1", "input_affine", "a=N-1", "b=N-1", "a=1", "bilinearity", "nondegenerate", "order_N", "g2_Z_in_Fp2", "infinity_input", "consecutive_negated_P", "consecutive_negated_Q", "crafted_stored_Z_limbs", "many_calls_one_process"]);
     let pr = r9::params();
     // --- Annex value of g = e(P1, Ppub-s): full 384 bytes against the reference, first coefficient against the standard
     if ctx.shard == 0 {
@@ -184,6 +184,28 @@ pub fn run(ctx: &mut Ctx) {
                 }
             }
         }
+    }
+    // --- many calls in one process: the same pairing 300 times (call-count dependent faults)
+    if ctx.shard == 0 {
+        let mut pm = ctx.prng("many");
+        let (a, b) = (rand_scalar(&mut pm, &pr.n), rand_scalar(&mut pm, &pr.n));
+        let pa = r9::g1_mul(&a, &r9::g1_gen()).unwrap();
+        let qa = r9::g2_mul(&b, &r9::g2_gen()).unwrap();
+        let e = r9::f12bytes(&r9::pairing(&pa, &qa).unwrap());
+        let (lp, lq) = (lib_g1_affine(&pa), lib_g2_affine(&qa));
+        for i in 0..300u32 {
+            ctx.eval();
+            ctx.class("many_calls_one_process");
+            match guard(|| hk::pairing(&lq, &lp).to_bytes_be()) {
+                Outcome::Ret(v) if v == e => {}
+                o => {
+                    ctx.violation(&format!("pairing:call-number-dependent:{}", if o.is_ret() { "value-differs-from-reference" } else { o.class() }), json!({"call_number": i, "a": hex::encode(r9::b32(&a)), "b": hex::encode(r9::b32(&b))}));
+                    break;
+                }
+            }
+        }
+    } else {
+        ctx.class("many_calls_one_process");
     }
     // --- identities evaluated inside the library on many more pairs
     let n = ctx.n(300, 20000);
